@@ -136,6 +136,29 @@ fn histories(alphabet: &[Op], depth: usize) -> Vec<Vec<Op>> {
     all
 }
 
+fn unhex(s: &str) -> Vec<u8> {
+    (0..s.len() / 2).map(|i| u8::from_str_radix(&s[2 * i..2 * i + 2], 16).unwrap()).collect()
+}
+
+/// value-directed seeds computed by the main harness (states whose jump image has a zero word, equal
+/// words, ...): lines "<Type> <jump|long_jump> <seed hex>"
+fn corpus_aux<T: RngCore + SeedableRng + Jumps>(name: &str, aux: &[(String, String, Vec<u8>)], out: &mut Vec<String>) {
+    for (i, (t, op, seed)) in aux.iter().enumerate().filter(|(_, a)| a.0 == name) {
+        let _ = t;
+        item(out, format!("{}/jump-special/{}/{}", name, op, i), |fx| {
+            let mut g = T::from_seed(mk_seed::<T>(seed));
+            if op == "jump" {
+                g.do_jump();
+            } else {
+                g.do_long_jump();
+            }
+            for _ in 0..3 {
+                fx.u64(g.next_u64());
+            }
+        });
+    }
+}
+
 fn corpus_type<T: RngCore + SeedableRng + Jumps>(name: &str, seed_len: usize, block_words: usize, word_bytes: usize, depth: usize, vseed: u64, out: &mut Vec<String>) {
     let mut alphabet = vec![Op::U32, Op::U64, Op::Fill(0), Op::Fill(3), Op::Fill(5), Op::Fill(9), Op::Fill(17)];
     if block_words > 0 {
@@ -289,11 +312,15 @@ enum Dev {
 const DEVS: [Dev; 13] = [Dev::Repeat, Dev::Repeat3, Dev::SameDelta, Dev::SameDeltaSkip, Dev::Arith, Dev::BackOne, Dev::BackFar, Dev::Jump31m1, Dev::Jump31, Dev::Jump32, Dev::Jump32p7, Dev::Wrap, Dev::Zero];
 
 fn deviate(base: &[u64], pos: usize, kind: Dev) -> Vec<u64> {
+    deviate_many(base, &[(pos, kind)])
+}
+
+fn deviate_many(base: &[u64], devs: &[(usize, Dev)]) -> Vec<u64> {
     let mut t: Vec<u64> = Vec::with_capacity(base.len());
     for i in 0..base.len() {
         let inc = if i == 0 { base[0] } else { base[i].wrapping_sub(base[i - 1]) };
         let mut v = if i == 0 { inc } else { t[i - 1].wrapping_add(inc) };
-        if i == pos {
+        if let Some(&(_, kind)) = devs.iter().find(|(p, _)| *p == i) {
             let prev = if i > 0 { t[i - 1] } else { 0 };
             let back = |k: usize| if i >= k { t[i - k] } else { 0 };
             v = match kind {
@@ -394,6 +421,30 @@ fn corpus_jitter(depth: usize, vseed: u64, out: &mut Vec<String>) {
             }
         }
     }
+    // long runs of consecutive stuck measurements in the second collection
+    {
+        let mut lens: Vec<usize> = (1..=10).collect();
+        let mut p = 16usize;
+        while p <= 4096 {
+            lens.extend([p - 1, p, p + 1]);
+            p *= 2;
+        }
+        let base = raw_readings(vseed ^ 0xAA, 3 * 13 + 3 * 4097 + 200);
+        for k in lens {
+            for kind in [Dev::Repeat3, Dev::SameDelta] {
+                item(out, format!("Jitter/stuck-run/{:?}x{}", kind, k), |fx| {
+                    let devs: Vec<(usize, Dev)> = (0..k).map(|j| (10 + 5 + 3 * j, kind)).collect();
+                    let (mut g, s) = jitter(deviate_many(&base[..3 * 13 + 3 * k + 150], &devs));
+                    g.set_rounds(2);
+                    fx.u64(g.next_u32() as u64);
+                    fx.u64(g.next_u64());
+                    fx.u64(s.pos.load(Ordering::Relaxed) as u64);
+                    fx.u64(g.next_u32() as u64);
+                    fx.u64(s.pos.load(Ordering::Relaxed) as u64);
+                });
+            }
+        }
+    }
     // bursts of extreme probe deltas (wraps in release vs panics in dev is exactly C18's business)
     let menu: [i64; 10] = [0, 1, -1, 1 << 30, -(1 << 30), (1 << 30) + (1 << 29), -((1 << 30) + (1 << 29)), (1i64 << 31) - 1, -(1i64 << 31), (1i64 << 32) - 1];
     for &a in &menu {
@@ -451,10 +502,23 @@ fn main() {
     let vseed: u64 = args.get(2).and_then(|s| s.parse::<i128>().ok()).map(|v| v as u64).unwrap_or(0);
     std::panic::set_hook(Box::new(|_| {}));
     let mut out: Vec<String> = Vec::new();
+    let aux: Vec<(String, String, Vec<u8>)> = args
+        .get(3)
+        .and_then(|p| std::fs::read_to_string(p).ok())
+        .map(|t| {
+            t.lines()
+                .filter_map(|l| {
+                    let mut it = l.split_whitespace();
+                    Some((it.next()?.to_string(), it.next()?.to_string(), unhex(it.next()?)))
+                })
+                .collect()
+        })
+        .unwrap_or_default();
     macro_rules! t {
-        ($t:ty, $len:expr, $bw:expr, $wb:expr) => {
-            corpus_type::<$t>(stringify!($t), $len, $bw, $wb, depth, vseed, &mut out)
-        };
+        ($t:ty, $len:expr, $bw:expr, $wb:expr) => {{
+            corpus_type::<$t>(stringify!($t), $len, $bw, $wb, depth, vseed, &mut out);
+            corpus_aux::<$t>(stringify!($t), &aux, &mut out);
+        }};
     }
     t!(Xoroshiro64Star, 8, 0, 4);
     t!(Xoroshiro64StarStar, 8, 0, 4);
